@@ -318,3 +318,14 @@ M("C12", "stacker compares data values", "xeofs/preprocessing/stacker.py", "    
 M("C12", "DataContainer.compute ignores flag", "xeofs/data_container/data_container.py", "computed_data = {k: v for k, v in self.items() if self._allow_compute[k]}", "computed_data = {k: v for k, v in self.items()}", "LAZY.input.filter")
 B("C12", "metadata access on lazy data", EOFPY, "        n_samples = X.coords[self.sample_name].size", "        n_samples = X.sizes[self.sample_name]\n        n_check = X.coords[self.sample_name].values.size")
 B("C12", "guarded compute with renamed flag", SC, '        if self.get_params()["compute"]:', '        do_compute = self.get_params()["compute"]\n        if do_compute:')
+
+# ---------------------------------------------------------------- learned from seeded defects (round 1)
+M("C03", "norms not selected by the scores' modes", BS, '            norms = self.data["norms"].sel(mode=scores.mode)\n            scores = scores * norms', '            scores = scores * self.data["norms"]', "MIRROR.modesel")
+M("C03", "components not selected by the scores' modes", EOFPY, 'comps = self.data["components"].sel(mode=scores.mode)', 'comps = self.data["components"]', "MIRROR.modesel")
+M("C04", "transform re-sort applies inverse permutation", ER, '            projections = projections.isel(\n                mode=self.data["idx_modes_sorted"].values\n            ).assign_coords(mode=projections.mode)', '            mode_order = self.data["idx_modes_sorted"].values + 1\n            projections = projections.assign_coords(mode=mode_order).sortby("mode")', "AGREE.resort")
+M("C04", "transform re-sort keeps permuted labels", ER, '            projections = projections.isel(\n                mode=self.data["idx_modes_sorted"].values\n            ).assign_coords(mode=projections.mode)', '            projections = projections.isel(\n                mode=self.data["idx_modes_sorted"].values\n            )', "AGREE.resort")
+M("C05", "unseen path reindexes by label", SA, "        # Don't check sample coords for unseen data\n        return X", "        return X.reindex({self.sample_name: X.coords[self.sample_name].values})", "UNSEEN.labelfree")
+M("C13", "deserialised dict attributes alias one object", "xeofs/preprocessing/transformer.py", "", "", "SERIAL.alias",
+  edits=[("        # Set attributes\n        for key, attr in dt.attrs.items():", "        # Set attributes\n        data = {}\n        for key, attr in dt.attrs.items():"), ("            elif attr == \"_is_tree\":\n                data = {}\n", "            elif attr == \"_is_tree\":\n")])
+M("C15", "seed forwarded only when truthy", DEC, '                "n_components": self.n_modes_precompute,\n                "random_state": self.random_state,\n            }\n', '                "n_components": self.n_modes_precompute,\n            }\n            if self.random_state:\n                solver_kwargs["random_state"] = self.random_state\n', "RNG.solver")
+B("C15", "seed set by item assignment", DEC, '                "n_components": self.n_modes_precompute,\n                "random_state": self.random_state,\n            }\n', '                "n_components": self.n_modes_precompute,\n            }\n            solver_kwargs["random_state"] = self.random_state\n')
